@@ -5,15 +5,15 @@
 From Cocls Require Import Base SharedDefs.
 Local Open Scope Z_scope.
 
-Theorem c17_late_init_refuted_before_fix : forall ops,
-  is_late (mode_of ops) = true -> sf_run_old ops = [[-999]] /\ sf_oracle ops (sf_run_old ops) = false.
+Theorem c17_late_init_refuted_before_fix : forall isvoid ops,
+  is_late (mode_of ops) = true -> sf_run_old isvoid ops = [[-999]] /\ sf_oracle isvoid ops (sf_run_old isvoid ops) = false.
 Proof.
-  intros ops H. unfold sf_run_old. rewrite H. split; reflexivity.
+  intros isvoid ops H. unfold sf_run_old. rewrite H. split; reflexivity.
 Qed.
 Print Assumptions c17_late_init_refuted_before_fix.
 
 (* witness: default-construct, get_promise(), one awaiter — replayed on the real code by mutation m5 (notes/C17.md) *)
 Example c17_late_init_witness :
   let ops := [[0;2;0]; [1;0;7]; [2;0;3]; [9;0;0;0;1;2;1;2]] in
-  sf_oracle ops (sf_run_old ops) = false /\ sf_oracle ops (sf_run ops) = true.
+  sf_oracle false ops (sf_run_old false ops) = false /\ sf_oracle false ops (sf_run false ops) = true.
 Proof. vm_compute. split; reflexivity. Qed.
